@@ -312,9 +312,12 @@ func (w *world) genTx() (*types.Transaction, *txDesc, error) {
 			b.Emit(vm.THROW)
 			d.Flag = false
 		case 1:
-			b.Emit(vm.JMP) // JMP +0: loops until gas or the step limit runs out
+			b.Emit(vm.JMP) // JMP +0: loops until the gas runs out (no step limit outside pre-execution)
 			b.Emit(0)
 			b.Emit(0)
+			if d.Limit > 3000000 {
+				d.Limit = 20000 + uint64(c.Intn(300000))
+			}
 		default:
 			d.Flag = true
 		}
@@ -333,6 +336,9 @@ func (w *world) genTx() (*types.Transaction, *txDesc, error) {
 		d.Kind = "random-script"
 		code := c.Bytes(1 + c.Intn(24))
 		d.Code = hx.Hex(code)
+		if d.Limit > 3000000 { // random bytes may loop
+			d.Limit = 20000 + uint64(c.Intn(300000))
+		}
 		mtx = w.k.InvokeTx(code, d.Price, d.Limit)
 	}
 	if err != nil {
